@@ -140,7 +140,7 @@ class CoopRLock:
         if self.depth == 0:
             self.ctl.yield_point("release", self)
             self.owner = None
-            if self.ctl.post_release:
+            if getattr(self.ctl, "post_release", False):
                 # a preemption point between "the lock is free again" and whatever the thread does next without it
                 self.ctl.yield_point("released", self)
 
